@@ -134,11 +134,11 @@ error (when teardown itself raised nothing; for a root context the block must ha
 normally — an exception of the block propagates through the root's task group first). -/
 theorem C13_children_reported (w : World) (t : TaskId) (c : CtxId) (be : BlockEnd) (x : Ctx)
     (hx : w.ctx? c = some x) (hs : x.state = .opened) (hch : x.children ≠ [])
-    (hnone : (runTeardown c be x.tds { x with state := .closing, tds := [] }).2.2 = [])
+    (hnone : (runTeardown c be (effStack be x.tds) { x with state := .closing, tds := [] }).2.2 = [])
     (hroot : be = .ret ∨ x.parent ≠ none) :
     (step w (.exit t c be)).2.getLast? = some .corruption := by
-  have hch2 : (runTeardown c be x.tds { x with state := .closing, tds := [] }).1.children
-      = x.children := (runTeardown_ext c be x.tds _).children
+  have hch2 : (runTeardown c be (effStack be x.tds) { x with state := .closing, tds := [] }).1.children
+      = x.children := (runTeardown_ext c be (effStack be x.tds) _).children
   simp only [step, hx, hs, ne_eq, not_true_eq_false, if_false]
   rw [List.getLast?_append]
   simp only [hnone, hch2, List.isEmpty_nil, Bool.not_true, Bool.false_eq_true, if_false,
@@ -178,6 +178,6 @@ example :
                           .exit 0 1 .ret, .getNowait 1 ⟨0, "default"⟩ false, .stateOf 1]
     ((run World.empty ops).2.map fun o => o.length) = [1, 1, 1, 4, 1, 1] := by
   simp [run, step, onCtx, World.ctx?, World.setCtx, World.setCur, World.curOf, World.empty,
-    alookup, ainsert, freshCtx, runTeardown, runBody, removeChild, ctxGetNowait, CState.usable]
+    alookup, ainsert, freshCtx, effStack, BlockEnd.isCancel, runTeardown, runBody, removeChild, ctxGetNowait, CState.usable]
 
 end Asphalt
